@@ -99,6 +99,20 @@ C01_result(t) == t.ev = "GameClosed" =>
   /\ \A i \in Seats(t) : LET r == t.result.players[i] IN
         r.final = t.P[i].bankroll + r.changed /\ r.final >= 0 /\ r.changed >= 0 - Put(t, i)
 
+(* C02 / C16 on the engine: the published pots and the settlement of real   *)
+(* play, judged by the input/output predicates of PotProps                   *)
+PP == INSTANCE PotProps
+PutOf(t) == [i \in Seats(t) |-> Put(t, i)]
+FoldOf(t) == [i \in Seats(t) |-> t.P[i].fold]
+PowerOf(t) == [i \in Seats(t) |-> IF t.P[i].comb = NULL THEN 0 ELSE t.P[i].comb.power]
+PotsPublished(t) == t.ev \in {"RoundClosed", "GameClosed"}
+EngineC16(t) == IF PotsPublished(t) THEN PP!FailedC16(Seats(t), PutOf(t), FoldOf(t), t.pots) ELSE {}
+ResultOK(t) == t.result # NULL /\ \A i \in Seats(t) : t.result.players[i].present
+EngineC02(t) ==
+  IF t.ev # "GameClosed" THEN {}
+  ELSE IF ~ResultOK(t) THEN {"C02.noResult"}
+  ELSE PP!FailedC02(Seats(t), PutOf(t), FoldOf(t), PowerOf(t), [i \in Seats(t) |-> t.result.players[i].changed])
+
 (* C04 - only the player to act can act, clockwise, in the right phase      *)
 C04_oneOffered(t) == Betting(t) =>
   /\ CurOK(t)
@@ -250,6 +264,8 @@ C14_shuffle(g, o, shuffled) == (o.op = "Start" /\ o.ok) => SameCards(g.meta.deck
 (* clauses of the selected properties that do NOT hold on a state / step.   *)
 N(name, holds) == IF holds THEN {} ELSE {name}
 FailedState(t, h2, props) ==
+  (IF "C02" \in props THEN EngineC02(t) ELSE {}) \cup
+  (IF "C16" \in props THEN EngineC16(t) ELSE {}) \cup
   (IF "C01" \in props THEN N("C01.identity", C01_identity(t)) \cup N("C01.roundPot", C01_roundPot(t))
                            \cup N("C01.pots", C01_pots(t)) \cup N("C01.result", C01_result(t)) ELSE {}) \cup
   (IF "C04" \in props THEN N("C04.oneOffered", C04_oneOffered(t)) \cup N("C04.passOnly", C04_passOnly(t)) ELSE {}) \cup
